@@ -49,6 +49,9 @@ CHECKS = {
  "C15": (MC, "vmc", "exhaustive syntax trees through an independent printer and back; exhaustive operator sequences against an independent precedence climber; exhaustive trivia placement; shorthand/expansion equivalences",
    "Every syntax tree of <= 4 (thorough 5) constructors over 10 leaves, 27 unary and 36 binary contexts (all 24 binary operators, bindings with patterns, try/catch, if/elif/else, label, def, reduce/foreach, calls, paths, objects with every key form, interpolation, formats) is printed with only the parentheses the manual's table requires, with every operand parenthesised, and without blanks, and must parse back to the same tree; every sequence of <= 3 (thorough 4) operators out of the 24 and `as $v |` written flat must parse to the grouping of an independent precedence climber; 12 kinds of trivia (blanks, newlines, CRLF, comments with the backslash rule) in every gap of ~2300 (thorough ~11000) programs; 76 shorthand/expansion pairs on 14 inputs; 188 malformed programs must be rejected.",
    "trusted: the printer's table and the climber, written from docs/corelang.dj; accept/reject of arbitrary token strings against a reference grammar is only covered by the fixed list of malformed programs", "DESIGN.md §2 C15"),
+ "C17": (MC, "vmc+py", "executable model of the command line (input iterator shared by main loop and input/inputs, output options, exit status) compared with the real binary on every configuration of a bounded product",
+   "23 filters with Python semantics x 9 input option sets (-n, -s, -R, -Rs, --raw-input0, --from) x 9 stream layouts (stdin or 1..3 files, empty files, parse error after k values), 10 filters x 18 output option sets x --exit-status x 2 layouts, and 68 direct cases (variable options, -f, --args, option parsing, every exit status): stdout byte-equal to the model, exit status equal, stderr non-empty on failure.",
+   "trusted: the Python model and printer, written from docs/cli.dj; quick explores a sub-product (stated in the evidence), thorough the full one", "DESIGN.md §2 C17"),
 }
 PENDING = {}
 def main():
@@ -74,7 +77,7 @@ def main():
         "hooks": {"guard": "jaq_verif (reserved; no hooks are needed: every observation point is reachable through public API)", "enable": "none (checks build /repo unchanged)",
                   "baseline_off_cmd": "cd /repo && cargo test --workspace --no-fail-fast --offline", "source_commits": [], "add_only": True},
         "engines": [
-            {"name": "py", "path": "py", "serves_properties": ["C13", "C14", "C18"], "kind_free_text": "Python 3 standard-library drivers for process-level checks and independent consumers"},
+            {"name": "py", "path": "py", "serves_properties": ["C13", "C14", "C17", "C18"], "kind_free_text": "Python 3 standard-library drivers for process-level checks and independent consumers"},
             {"name": "vmc", "path": "harness/vmc", "serves_properties": sorted(CHECKS), "kind_free_text": "Rust harness: reference model (values, terms, CPS evaluator), exhaustive enumerators, trace conformance against /repo's library API"},
         ],
         "checks": checks,
